@@ -441,7 +441,7 @@ impl CaseSpace for Repeated {
 
 struct Replies;
 
-const REPLY_VARIANTS: usize = 8; // (the eighth: the coarse delay object g52v1 in place of g52v2) ideal, unexpected objects, IIN2 error, NEED_TIME in final reply, empty where an object is expected, two delay objects in one header, a second delay header
+const REPLY_VARIANTS: usize = 10; // (ninth and tenth: the ideal reply, but from a link address that is not associated / from the other association) (the eighth: the coarse delay object g52v1 in place of g52v2) ideal, unexpected objects, IIN2 error, NEED_TIME in final reply, empty where an object is expected, two delay objects in one header, a second delay header
 
 impl CaseSpace for Replies {
     fn name(&self) -> String {
@@ -464,11 +464,15 @@ impl CaseSpace for Replies {
             res.violation = Some(Violation::new("C18.P0", "setup", "add_association".to_string()));
             return res;
         };
+        if variant == 9 {
+            sim.add_association(OUTSTATION_ADDR + 1, AssociationConfig::quiet());
+        }
         sim.take_out();
         sim.take_cb();
         let proc_ = procedure(proc_k);
         sim.call("sync", async move { a.synchronize_time(proc_).await });
         let n_steps = if proc_k == 2 { 1 } else { 2 };
+        let mut reply_from: Option<u16> = None;
         let mut applied = false;
         for step in 0..n_steps {
             let reqs: Vec<Vec<u8>> = sim.take_out().iter().filter_map(|t| t.frag()).filter(|f| f[1] != fc::CONFIRM).map(|f| f.to_vec()).collect();
@@ -513,6 +517,14 @@ impl CaseSpace for Replies {
                             applied = true;
                         }
                     }
+                    8 => {
+                        reply_from = Some(77);
+                        applied = true;
+                    }
+                    9 => {
+                        reply_from = Some(OUTSTATION_ADDR + 1);
+                        applied = true;
+                    }
                     _ => {
                         // the *coarse* delay object (seconds) where the fine one (milliseconds) is required
                         if req[1] == fc::DELAY_MEASURE {
@@ -530,7 +542,11 @@ impl CaseSpace for Replies {
                 // a round trip longer than the delay the reply reports
                 sim.advance(300);
             }
-            sim.respond(&r);
+            match reply_from.take() {
+                // the expected reply, but another station sends it: not an answer to this request
+                Some(src) => sim.respond_from(src, &r),
+                None => sim.respond(&r),
+            }
             res.transitions += 1;
         }
         sim.advance(6000);
@@ -545,7 +561,7 @@ impl CaseSpace for Replies {
         }
         let ok = done[0].starts_with("Ok");
         if applied && ok {
-            let what = ["ideal", "unexpected-objects", "iin2-error", "need-time-still-set", "missing-delay-object", "two-delay-objects-in-one-header", "two-delay-headers", "coarse-delay-object"][variant];
+            let what = ["ideal", "unexpected-objects", "iin2-error", "need-time-still-set", "missing-delay-object", "two-delay-objects-in-one-header", "two-delay-headers", "coarse-delay-object", "reply-from-unassociated-address", "reply-from-the-other-association"][variant];
             res.violation = Some(Violation::new("C18.F2", format!("success-reported-although-{what}:{proc_:?}"), done[0].clone()));
         } else if !applied && !ok {
             res.violation = Some(Violation::new("C18.L1", format!("failure-in-ideal-conditions:{proc_:?}"), done[0].clone()));
@@ -579,7 +595,7 @@ pub fn check(tier: &str) -> i32 {
     c.cases(&Repeated);
     c.finish(
         "model_checking",
-        "paired real MasterTask + real OutstationTask on one virtual clock, the driver holding every frame for a scripted one-way delay: forward delay x backward delay in {0,1,2,7,65535,65536} ms x processing delay in {0,1,2,7,65535} ms x master clock base {0, 1, 2^47, just below and at 2^48-1} x {LAN, non-LAN, direct write} x {honest, processing delay reported larger than the round trip, NEED_TIME persisting}, plus unrelated traffic (unsolicited response, stale-sequence response, link status request) injected at each protocol step; success implies |time handed to the application - (base + virtual now)| <= d_f (LAN, direct) / |d_f - d_b| (non-LAN) and exactly one write; the failure conditions imply a reported failure; ideal conditions imply success. Plus scripted master-side replies (unexpected objects, IIN2 error, NEED_TIME in the final reply, missing delay object) at each step of each procedure; non-trivial = the application's clock was written; distinct = distinct case",
+        "paired real MasterTask + real OutstationTask on one virtual clock, the driver holding every frame for a scripted one-way delay: forward delay x backward delay in {0,1,2,7,65535,65536} ms x processing delay in {0,1,2,7,65535} ms x master clock base {0, 1, 2^47, just below and at 2^48-1} x {LAN, non-LAN, direct write} x {honest, processing delay reported larger than the round trip, NEED_TIME persisting}, plus unrelated traffic (unsolicited response, stale-sequence response, link status request) injected at each protocol step; success implies |time handed to the application - (base + virtual now)| <= d_f (LAN, direct) / |d_f - d_b| (non-LAN) and exactly one write; the failure conditions imply a reported failure; ideal conditions imply success. Plus scripted master-side replies (unexpected objects, IIN2 error, NEED_TIME in the final reply, missing delay object, two delay objects, the coarse delay object, the ideal reply from an unassociated address and from the other association) at each step of each procedure; non-trivial = the application's clock was written; distinct = distinct case",
         &[
             "integer-millisecond arithmetic; the halving in the non-LAN procedure truncates by < 1 ms, which the bound absorbs whenever it is non-zero",
             "quick tier restricts the master-clock bases and interleavings to a boundary subset of delays; thorough runs the full products",
